@@ -300,7 +300,7 @@ PROPS = {
     },
     "C14": {
         "level": "proof",
-        "level_text": "Proof for the value-level kernels of the WHERE evaluator (CompiledPredicate::compare_values, eval_binary_op AND/OR, eval_unary_op NOT): for every Int/Float/NULL operand pair and all six comparison operators the kernel answers true iff the comparison is TRUE under SQL three-valued logic (minus the known NULL = NULL class); AND/OR/NOT results are TRUE exactly when Kleene logic says TRUE. Bounded stand-ins on literal expression trees: eval_expr over AND/OR of boolean literals; IS [NOT] NULL over NULL, TRUE and the computed operand NULL + TRUE; [NOT] IN and [NOT] BETWEEN over non-NULL boolean literals — through eval_value and eval_expr. Partial: IN lists, BETWEEN, LIKE, text comparison, column lookup, the optimizer's pushdown and which evaluator a query uses are not covered.",
+        "level_text": "Proof for the value-level kernels of the WHERE evaluator (CompiledPredicate::compare_values, eval_binary_op AND/OR, eval_unary_op NOT): for every Int/Float/NULL operand pair and all six comparison operators the kernel answers true iff the comparison is TRUE under SQL three-valued logic (minus the known NULL = NULL class); AND/OR/NOT results are TRUE exactly when Kleene logic says TRUE; the kernels behind IN / BETWEEN / CASE: value_cmp is None iff an operand is NULL and otherwise the exact Int order / IEEE order, values_equal is SQL `=` on Int/Float operands (exact, same Int -> f64 coercion) and never matches a NULL. Bounded stand-ins on literal expression trees: eval_expr over AND/OR of boolean literals; IS [NOT] NULL over NULL, TRUE and the computed operand NULL + TRUE; [NOT] IN and [NOT] BETWEEN over non-NULL boolean literals, IN with NULL operands / NULL list elements — through eval_value and eval_expr. Partial: IN / BETWEEN over arbitrary expression trees, LIKE, text comparison, column lookup, the optimizer's pushdown and which evaluator a query uses are not covered.",
         "level_note": "Partial. Open known findings: NULL = NULL is TRUE; AND/OR return 0 instead of NULL for UNKNOWN; eval_expr has no NOT arm (answers true); NOT IN / NOT BETWEEN with a NULL answer TRUE instead of UNKNOWN. Int/Float comparison uses the engine's `as f64` coercion (exact comparison above 2^53 is not demanded). Trusted: CompiledPredicate::new as compiled by Kani (hashbrown map construction), never dropped.",
         "technique": "Kani full-domain Hoare triples on the real comparison/connective kernels against literal Kleene truth tables; bounded enumeration of literal expression trees for eval_expr",
         "kani_units": ["predicate"],
